@@ -7,6 +7,10 @@
    c02.enc fixed <LF|CRLF|CR> <withoutHeader> <ncols> <nrows> <hdr…> <cells…>       (automatic positions)
    c02.encp fixed <LF|CRLF|CR> <withoutHeader> <npos> <pos…> <ncols> <nrows> <hdr…> <cells…>
    c02.dec fixed <noHeader> <withoutNull> <npos> <pos…> <hex>                       (explicit positions)
+   c02.fpos <noHeader> <hex>                     fixed-length, the automatic delimiter positions: `P p1 p2 …`
+   c02.deca fixed <noHeader> <withoutNull> <hex>                                    (automatic positions)
+   c02.tenc <ENCODING> <hex of the UTF-8 text>   the bytes the transform writer produces (hex)
+   c02.tdec <ENCODING> <hex bytes>               the text the transform decoder produces (hex of its UTF-8) | E
    c02.jesc <0|1|2> <hex>                        JSON string escape (Backslash / HexDigits / AllWithHexDigits)
    c02.junesc <hex>                              JSON string unescape
    c02.jenc json|jsonl <esc> <pretty> <LF|CRLF|CR> <nprof> <lit=canon…> <ncols> <nrows> <hdr…> <cells…>
@@ -24,7 +28,10 @@ import Csvq.Model.Proto
 import Csvq.Model.Csv
 import Csvq.Model.Ltsv
 import Csvq.Model.Fixed
+import Csvq.Model.FixedAuto
 import Csvq.Model.Json
+import Csvq.Model.JsonPath
+import Csvq.Model.Encoding
 namespace Csvq.Drive
 open Csvq Csvq.Proto
 
@@ -188,6 +195,52 @@ def decFixed (args : List String) : String :=
     | _, _, _ => "bad-op"
   | _ => "bad-op"
 
+def fpos (args : List String) : String :=
+  match args with
+  | [nh, hx] =>
+    match parseBool nh, unhexText hx with
+    | some nh, some inp => String.intercalate " " ("P" :: (Fixed.delimit wdUtf8 nh inp).map toString)
+    | _, _ => "bad-op"
+  | _ => "bad-op"
+
+def decFixedAuto (args : List String) : String :=
+  match args with
+  | [nh, wn, hx] =>
+    match parseBool nh, parseBool wn, unhexText hx with
+    | some nh, some wn, some inp =>
+      let ps := Fixed.delimit wdUtf8 nh inp
+      match Fixed.decodeFixed wdUtf8 { withoutHeader := nh, withoutNull := wn } ps inp with
+      | .ok t => showDTable (Fixed.detectLB wdUtf8 ps inp) t
+      | .error _ => "E"
+    | _, _, _ => "bad-op"
+  | _ => "bad-op"
+
+def parseEncoding (s : String) : Option Enc.Encoding :=
+  if s = "UTF8" then some .utf8 else if s = "UTF8M" then some .utf8m else if s = "UTF16" then some .utf16
+  else if s = "UTF16BE" then some .utf16be else if s = "UTF16LE" then some .utf16le
+  else if s = "UTF16BEM" then some .utf16bem else if s = "UTF16LEM" then some .utf16lem else none
+
+def hexBytes (b : List Nat) : String := if b.isEmpty then "-" else hex b
+
+def tenc (args : List String) : String :=
+  match args with
+  | [e, hx] =>
+    match parseEncoding e, unhexText hx with
+    | some e, some s => hexBytes (Enc.encode e s)
+    | _, _ => "bad-op"
+  | _ => "bad-op"
+
+def tdec (args : List String) : String :=
+  match args with
+  | [e, hx] =>
+    match parseEncoding e, (if hx = "-" then some [] else unhex hx) with
+    | some e, some b =>
+      match Enc.decode e b with
+      | some s => hexBytes (Enc.encodeUtf8 s)
+      | none => "E"
+    | _, _ => "bad-op"
+  | _ => "bad-op"
+
 def parseEsc (s : String) : Option Json.Esc :=
   if s = "0" then some .backslash else if s = "1" then some .hex else if s = "2" then some .all else none
 
@@ -250,8 +303,10 @@ def jenc (args : List String) : String :=
     | some t, some pr, some lb, some (canon, tbl) =>
       match parseTable parseJCell tbl with
       | some (h, rows) =>
-        if f = "json" then hexOut (Json.encodeJson t canon (if pr then some lb else none) ⟨h, rows⟩)
-        else if f = "jsonl" then hexOut (Json.encodeJsonl t canon lb ⟨h, rows⟩)
+        -- column names are paths (`a.b`): Csvq.Model.JsonPath; `E` = refused
+        let out (r : Option (List Char)) : String := match r with | some cs => hexOut cs | none => "E"
+        if f = "json" then out (Json.encodeJsonP t canon (if pr then some lb else none) ⟨h, rows⟩)
+        else if f = "jsonl" then out (Json.encodeJsonlP t canon lb ⟨h, rows⟩)
         else "bad-op"
       | none => "bad-op"
     | _, _, _, _ => "bad-op"
@@ -294,6 +349,10 @@ def c02 (cmd : String) (args : List String) : String :=
   | "enc", "fixed" :: rest => C02.encFixed false rest
   | "encp", "fixed" :: rest => C02.encFixed true rest
   | "dec", "fixed" :: rest => C02.decFixed rest
+  | "deca", "fixed" :: rest => C02.decFixedAuto rest
+  | "fpos", rest => C02.fpos rest
+  | "tenc", rest => C02.tenc rest
+  | "tdec", rest => C02.tdec rest
   | "jesc", rest => C02.jesc rest
   | "junesc", rest => C02.junesc rest
   | "jenc", rest => C02.jenc rest
